@@ -44,6 +44,7 @@
 From ASModel Require Import Base State Orderings_gen Step Run Progress Hist Local Inv InvTl InvProto InvStep Sum StepCases.
 From ASModel Require Import GenDefs Gen1 Gen2 Gen EnvDefs Env4 Env AccDefs Acc1 Acc2 Acc3 Acc4 Acc5 Acc6 Acc7 Acc.
 From ASModel Require Import ProtDefs Prot1 Prot11 Prot16 Prot Typed LinDefs Lin2 Lin Safe1 Safe2 Safe7 Safe8 Safe Main GenLen ProgWF1 ProgWF.
+From ASModel Require Import Stale StaleInv.
 
 Theorem C02_dec : forall s a,
   match heap s a with
@@ -138,3 +139,19 @@ Print Assumptions C02_no_owner_destroyed.
 Print Assumptions C02_accounting_step.
 Print Assumptions C02_accounting_len.
 Print Assumptions C02_accounting_static.
+
+(** ** With stale first reads of the fast path ([Stale.step_stale], see Props/C01.v). *)
+Theorem C02_accounting_stale cf inits progs sched :
+  RunOKS cf inits progs sched -> Acc (run_state_stale cf (init_state inits progs) sched).
+Proof. exact (StaleInv6.C02_accounting_stale cf inits progs sched). Qed.
+
+Theorem C02_no_owner_destroyed_stale cf inits progs sched a :
+  RunOKS cf inits progs sched ->
+  let s := run_state_stale cf (init_state inits progs) sched in
+  Quiescent s -> valid a ->
+  (forall c, mem (sh s) (LStore c) <> a) -> (forall h, href a (hnd s h) = 0) ->
+  mem (sh s) (LCount a) = 0 /\ heap (sh s) a = None /\ forall n j, mem (sh s) (LSlot n j) <> a.
+Proof. exact (StaleInv6.C02_no_owner_destroyed_stale cf inits progs sched a). Qed.
+
+Print Assumptions C02_accounting_stale.
+Print Assumptions C02_no_owner_destroyed_stale.
